@@ -1173,4 +1173,28 @@ theorem builtin_ok (hx : ExtOk ext) (hg : GgOk Gg) (name : Str) (sig : BSig) (ty
   exfalso
   simp [builtinSig, hn_len, hn_typeof, hn_has, hn_del, hn_str2bool, hn_sprint, hn_join, hn_startswith, hn_endswith, hn_index, hn_exit, hn_panic, hn_sleep, hn_cls, hn_read, hn_abs, hn_floor, hn_ceil, hn_round, hn_log, hn_sqrt, hn_sin, hn_cos, hn_min, hn_max, hn_pow, hn_atan2, hn_upper, hn_lower, hn_trim, hn_replace, hn_str2num, hn_move, hn_line, hn_rect, hn_circle, hn_width, hn_color, hn_colour, hn_stroke, hn_fill, hn_linecap, hn_text, hn_clear, hn_grid, hn_gridn, hn_dash, hn_ellipse, hn_hsl, hn_printf, hn_sprintf, hn_repr, hn_split, hn_rand, hn_rand1] at hs
 
+/-- `test` on arguments that are all anys: passes, fails (the documented failed-test outcome) or
+rejects its arguments -/
+theorem bi_test {S : Store} (vs : List (Val F)) (st : St F) (hv : ∀ v ∈ vs, VT S v .any) :
+    ∃ r, callBuiltin ops ext (lit "test") vs st = some r ∧
+      (r = .ok .none st ∨ r = .err (.internal "ErrTest") st ∨ r = .err (.panic .badArgs) st) := by
+  simp [callBuiltin, isBuiltin, builtinNames, lit]
+  match vs, hv with
+  | [], _ => simp [badArgs]
+  | [v], hv =>
+    obtain ⟨t, w, rfl, _, hw⟩ := (hv v List.mem_cons_self).any_inv
+    cases hw with
+    | bool b => cases b <;> simp
+    | _ => simp [badArgs]
+  | v1 :: v2 :: rest, hv =>
+    simp only
+    match rest, hv with
+    | [], _ =>
+      simp only
+      split <;> simp
+    | r0 :: rest', hv =>
+      obtain ⟨t, w, rfl, _, hw⟩ := (hv r0 (by simp)).any_inv
+      cases hw <;> simp [badArgs]
+      split <;> simp
+
 end EvyV.TS
